@@ -183,7 +183,10 @@ CLAIMED = {
           "short_form_written: parseAttributeMarker on every such written form). "
           "Self-closing markers [name k=v .../] are items of the same documents (one attribute of length 0 at the marker's "
           "position, with its properties; hypothesis: no blank directly after them). "
-          "Not proved: replacement markers, the whitespace-trimming rule of self-closing markers, the character prefix and trimmed "
+          "The implicit character attribute (C13_character_prefix_partial, Proofs/MarkupCharacterProofs.v): a line `Name: rest` without markup "
+          "and without edge blanks comes back unchanged with exactly one attribute 'character' at 0 covering the name, the colon and the blanks "
+          "after it (in characters, multi-byte names included), property name = the name, and TextForAttribute returns exactly that prefix. "
+          "Not proved: replacement markers, the whitespace-trimming rule of self-closing markers, the character prefix combined with markers and trimmed "
           "edge blanks inside that round trip. Correspondence: documents from a grammar, "
           "model vs implementation, and for structured documents the implementation vs the meaning the generator knows "
           "by construction (independent oracle).",
